@@ -365,7 +365,7 @@ def main():
     build.module(); build.layout(); build.build_native()
     us = units(tier)
     # the tree routine: units shared with C15 (checks/c15.py run_tree): opening angle 0 == pairwise sum, finite opening angle + softening == Barnes-Hut definition
-    tree_us = [dict(what='tree', N=2, sep=2, axes=('x', 'y')), dict(what='tree', N=3, sep=2, axes=('x',)), dict(what='tree', N=2, sep=2, axes=('x',), theta=True)]
+    tree_us = [dict(what='tree', N=2, sep=2, axes=('x', 'y')), dict(what='tree', N=3, sep=2, axes=('x',)), dict(what='tree', N=2, sep=2, axes=('x',), theta=True), dict(what='tree', N=2, sep=2, axes=('z',), move=True), dict(what='tree', N=2, sep=2, axes=('y',), move=True)]
     if tier == 'thorough': tree_us.append(dict(what='tree', N=3, sep=2, axes=('x',), theta=True, t_ms=30000))
     rep = run_units(us + tree_us, run_any)
     Nmax = max(u['N'] for u in us)
